@@ -491,6 +491,8 @@ def _keyedlock_fields(mods) -> set[str]:
     """Names of fields / locals that are assigned `KeyedLock(...)` anywhere."""
     out = set()
     for mod in mods:
+        if CLS not in mod.src:
+            continue
         for n in ast.walk(mod.tree):
             if isinstance(n, (ast.Assign, ast.AnnAssign)) and isinstance(getattr(n, "value", None), ast.Call) and last(call_name(n.value)) == CLS:
                 for t in (n.targets if isinstance(n, ast.Assign) else [n.target]):
@@ -504,6 +506,8 @@ def _keyedlock_fields(mods) -> set[str]:
 def _outsiders(mods, holder_names: set[str], is_keyedlock_class) -> list[tuple[Module, ast.Attribute]]:
     hits = []
     for mod in mods:
+        if not any(t in mod.src for t in TABLES):
+            continue
         for n in ast.walk(mod.tree):
             if not (isinstance(n, ast.Attribute) and n.attr in TABLES):
                 continue
